@@ -400,7 +400,9 @@ def gen_history(r, cid, nops=None, comp=None, kind=None, rotations=True, direct=
             op = {'op': 'rotate', 'id': 'o%d' % nout, 'export': True}
             nout += 1
         else:
-            op = {'op': 'rotate', 'id': 'o%d' % nout, 'export': r.random() < 0.5}
+            # some destination names contain ".part" themselves (dump.part2, a directory incoming.partial/ ...)
+            oid = ('o%d' % nout) if r.random() > 0.15 else r.choice(['o%d.part%d', 'o%d.partial', 'x.part.o%d.part']).replace('%d', str(nout))
+            op = {'op': 'rotate', 'id': oid, 'export': r.random() < 0.5}
             nout += 1
         m.apply(op, i)
         case['ops'].append(op)
